@@ -46,6 +46,7 @@ func C13(c *Ctx) {
 	r.Rule("C13-h", "inlining by -optimize-grammar terminates: a rule reference is replaced by a clone of the rule only if the rule is defined and has no entry in ruleUsesRules, and that map records every reference of every rule (self references included) unconditionally - so the clone contains no reference and cannot be inlined again")
 	r.Rule("C13-i", "no store into a possibly nil map: every `m[k] = v` in the generator whose m is a local map variable has only definitions that yield a non-nil map (make, a map literal, or a call to a function of the package all of whose returns are such values); parameters, fields and map elements are the owner's responsibility and are covered by the rules of their owner")
 	r.Rule("C13-j", "every index with a constant or len(x)-1 subscript into a string or slice in the generator (x[0], x[len(x)-1]) is dominated by a length test of the same x: a conjunct to its left in the same condition, an enclosing if, or an early exit `if len(x) == 0 { return }` after the last assignment to x (empty code blocks `{}` and empty classes `[]` are valid grammar text)")
+	r.Rule("C13-k", "a loop that runs while a local list or string is not empty (len(x) > 0, x != \"\") makes x shorter on every path round the loop: x = x[c:], x = x[:len(x)-c], the tail of strings.Cut, in the body or the post statement; a list re-read from elsewhere is no progress argument (the tool terminates on every argument list and grammar text)")
 	r.Rule("C13-c", "main passes Recover(!*noRecoverFlag) to ParseReader")
 
 	g := c.G()
@@ -98,6 +99,7 @@ func C13(c *Ctx) {
 	c13CounterLoops(c, g)
 	optimizerInlining(c, g, "C13-h")
 	c13IO(c, g)
+	c13DrainLoops(c, g)
 	c13NilMaps(c, g)
 	c13ConstIndex(c, g)
 	c13Exit(c, g)
@@ -1850,6 +1852,11 @@ func nonEmptyProvedAt(g *load.G, pkg *packages.Package, fd *ast.FuncDecl, node a
 		case *ast.IfStmt:
 			if p.Body.Pos() <= node.Pos() && node.End() <= p.Body.End() && lenTestProves(nospace(p.Cond), x) && !assignedBetween(p.Body, x, p.Body.Pos(), node.Pos()) {
 				proved = "enclosing if " + nospace(p.Cond)
+			}
+		case *ast.ForStmt:
+			// the condition of a loop holds where its body starts, and on until x is assigned
+			if p.Cond != nil && p.Body.Pos() <= node.Pos() && node.End() <= p.Body.End() && lenTestProves(nospace(p.Cond), x) && !assignedBetween(p.Body, x, p.Body.Pos(), node.Pos()) {
+				proved = "enclosing loop condition " + nospace(p.Cond)
 			}
 		case *ast.CaseClause:
 			// a clause of a condition switch: its own condition holds in its body
